@@ -4,21 +4,9 @@ From Coq Require Import String List ZArith NArith Bool Lia.
 From Coq.Strings Require Import Byte.
 Import ListNotations.
 From OV Require Import Base.Bytes Base.Cases Base.Tree Gen.Conv Model.Value Model.XPathFrag Model.Decl Model.Eval.
-From OV Require Import Proofs.Value Proofs.EvalPure.
+From OV Require Import Proofs.Value Proofs.ValuePrint Proofs.EvalPure.
 
 (* ---- one normalisation = two normalisations ------------------------------------------------------ *)
-Lemma trim_left_fix encs n s : strip_any encs s = None -> trim_left_with encs n s = s.
-Proof. intro H. destruct n; simpl; [reflexivity|]. rewrite H. reflexivity. Qed.
-
-Lemma trimmed_trim_id s : trimmed s -> trim_space s = s.
-Proof.
-  intros [H1 H2]. unfold trim_space, trim_left, trim_right.
-  rewrite (trim_left_fix _ _ _ H1). fold ws_rev. rewrite (trim_left_fix _ _ _ H2). apply rev_involutive.
-Qed.
-
-Lemma trim_space_idem s : trim_space (trim_space s) = trim_space s.
-Proof. apply trimmed_trim_id. apply trim_space_trimmed. Qed.
-
 Lemma bool_str_trim b : trim_space (bool_str b) = bool_str b.
 Proof. destruct b; vm_compute; reflexivity. Qed.
 
